@@ -1,12 +1,80 @@
 import NetVerif.Driver.H2Common
-/-! Line-protocol driver for C06 (Framer write → read round trip). Stateless:
-each op is one `Framer.Write*` call on a fresh Framer followed by one
-`ReadFrame` of what was written (for CONTINUATION, after an unfinished HEADERS
-on the same stream so that `checkFrameOrder` admits it). -/
+/-! Line-protocol driver for C06 (Framer write → read round trip). A case is a sequence of
+`Framer.Write*` calls on ONE writing Framer (`reset` starts a new one); the model threads the
+Framer's write buffer through the calls (`runCall`). After every accepted call what was written is
+read back by a fresh reading Framer (for CONTINUATION after an unfinished HEADERS on the same stream,
+written through the same writing Framer, so that `checkFrameOrder` admits it). -/
 open NetVerif.Driver NetVerif.Driver.H2 NetVerif.Model.H2Frame
 
-/-- after a successful write: show the bytes and what a fresh Framer reads back. -/
-def c06Finish (w : Except WErr (List Nat)) (pre : List Nat := []) : String :=
+/-- parse one op line into a call. -/
+def parseCall : List String → Option Call
+  | ["data", sid, es, d, pad] => do
+    let sid ← parseNat sid
+    let es ← parseBool es
+    let d ← parsePayload d
+    let pad ← (if pad == "nil" then some none else (parsePayload pad).map some)
+    pure (.data sid es d pad)
+  | ["headers", sid, es, eh, padLen, dep, excl, weight, frag] => do
+    let sid ← parseNat sid
+    let es ← parseBool es
+    let eh ← parseBool eh
+    let padLen ← parseNat padLen
+    let dep ← parseNat dep
+    let excl ← parseBool excl
+    let weight ← parseNat weight
+    let frag ← parsePayload frag
+    pure (.headers sid frag es eh padLen { streamDep := dep, exclusive := excl, weight := weight })
+  | ["priority", sid, dep, excl, weight] => do
+    let sid ← parseNat sid
+    let dep ← parseNat dep
+    let excl ← parseBool excl
+    let weight ← parseNat weight
+    pure (.priority sid { streamDep := dep, exclusive := excl, weight := weight })
+  | ["rst", sid, code] => do
+    let sid ← parseNat sid
+    let code ← parseNat code
+    pure (.rstStream sid code)
+  | ["settings", ss] => (parseSettingsTok ss).map .settings
+  | ["settingsack"] => some .settingsAck
+  | ["ping", ack, d] => do
+    let ack ← parseBool ack
+    let d ← parsePayload d
+    if d.length == 8 then pure (.ping ack d) else none
+  | ["goaway", m, c, dbg] => do
+    let m ← parseNat m
+    let c ← parseNat c
+    let d ← parsePayload dbg
+    pure (.goAway m c d)
+  | ["winupdate", sid, incr] => do
+    let sid ← parseNat sid
+    let incr ← parseNat incr
+    pure (.windowUpdate sid incr)
+  | ["continuation", sid, eh, frag] => do
+    let sid ← parseNat sid
+    let eh ← parseBool eh
+    let frag ← parsePayload frag
+    pure (.continuation sid eh frag)
+  | ["pushpromise", sid, pid, eh, padLen, frag] => do
+    let sid ← parseNat sid
+    let pid ← parseNat pid
+    let eh ← parseBool eh
+    let padLen ← parseNat padLen
+    let frag ← parsePayload frag
+    pure (.pushPromise sid pid frag eh padLen)
+  | ["prioupdate", sid, p] => do
+    let sid ← parseNat sid
+    let p ← parsePayload p
+    pure (.priorityUpdate sid p)
+  | ["raw", t, fl, sid, p] => do
+    let t ← parseNat t
+    let fl ← parseNat fl
+    let sid ← parseNat sid
+    let p ← parsePayload p
+    pure (.raw t fl sid p)
+  | _ => none
+
+/-- after a successful write: show the bytes and what a fresh reading Framer reads back. -/
+def c06Finish (w : Except WErr (List Nat)) (pre : List Nat) : String :=
   match w with
   | .error e => showWErr e
   | .ok bs =>
@@ -15,67 +83,20 @@ def c06Finish (w : Except WErr (List Nat)) (pre : List Nat := []) : String :=
     let r := readFrame r0.fr r0.rest
     s!"ok {dig bs} | {showRead r.res} rest={r.rest.length}"
 
-def c06Step (_ : Unit) (line : String) : Unit × String :=
-  let out : String :=
-    match tokens line with
-    | ["data", sid, es, d, pad] =>
-      match parseNat sid, parseBool es, parsePayload d,
-            (if pad == "nil" then some none else (parsePayload pad).map some) with
-      | some sid, some es, some d, some pad => c06Finish (writeData sid es d pad)
-      | _, _, _, _ => "bad-op"
-    | ["headers", sid, es, eh, padLen, dep, excl, weight, frag] =>
-      match parseNat sid, parseBool es, parseBool eh, parseNat padLen, parseNat dep, parseBool excl,
-            parseNat weight, parsePayload frag with
-      | some sid, some es, some eh, some padLen, some dep, some excl, some weight, some frag =>
-        c06Finish (writeHeaders sid frag es eh padLen { streamDep := dep, exclusive := excl, weight := weight })
-      | _, _, _, _, _, _, _, _ => "bad-op"
-    | ["priority", sid, dep, excl, weight] =>
-      match parseNat sid, parseNat dep, parseBool excl, parseNat weight with
-      | some sid, some dep, some excl, some weight =>
-        c06Finish (writePriority sid { streamDep := dep, exclusive := excl, weight := weight })
-      | _, _, _, _ => "bad-op"
-    | ["rst", sid, code] =>
-      match parseNat sid, parseNat code with
-      | some sid, some code => c06Finish (writeRSTStream sid code)
-      | _, _ => "bad-op"
-    | ["settings", ss] =>
-      match parseSettingsTok ss with
-      | some ss => c06Finish (writeSettings ss)
-      | none => "bad-op"
-    | ["settingsack"] => c06Finish writeSettingsAck
-    | ["ping", ack, d] =>
-      match parseBool ack, parsePayload d with
-      | some ack, some d => if d.length == 8 then c06Finish (writePing ack d) else "bad-op"
-      | _, _ => "bad-op"
-    | ["goaway", maxSid, code, dbg] =>
-      match parseNat maxSid, parseNat code, parsePayload dbg with
-      | some m, some c, some d => c06Finish (writeGoAway m c d)
-      | _, _, _ => "bad-op"
-    | ["winupdate", sid, incr] =>
-      match parseNat sid, parseNat incr with
-      | some sid, some incr => c06Finish (writeWindowUpdate sid incr)
-      | _, _ => "bad-op"
-    | ["continuation", sid, eh, frag] =>
-      match parseNat sid, parseBool eh, parsePayload frag with
-      | some sid, some eh, some frag =>
-        match writeHeaders sid [] false false 0 {} with
-        | .ok pre => c06Finish (writeContinuation sid eh frag) pre
-        | .error _ => c06Finish (writeContinuation sid eh frag)
-      | _, _, _ => "bad-op"
-    | ["pushpromise", sid, pid, eh, padLen, frag] =>
-      match parseNat sid, parseNat pid, parseBool eh, parseNat padLen, parsePayload frag with
-      | some sid, some pid, some eh, some padLen, some frag =>
-        c06Finish (writePushPromise sid pid frag eh padLen)
-      | _, _, _, _, _ => "bad-op"
-    | ["prioupdate", sid, p] =>
-      match parseNat sid, parsePayload p with
-      | some sid, some p => c06Finish (writePriorityUpdate sid p)
-      | _, _ => "bad-op"
-    | ["raw", t, fl, sid, p] =>
-      match parseNat t, parseNat fl, parseNat sid, parsePayload p with
-      | some t, some fl, some sid, some p => c06Finish (writeRawFrame t fl sid p)
-      | _, _, _, _ => "bad-op"
-    | _ => "bad-op"
-  ((), out)
+/-- state: the writing Framer's `wbuf`. -/
+def c06Step (wbuf : List Nat) (line : String) : List Nat × String :=
+  match tokens line with
+  | ["reset"] => ([], "ok")
+  | toks =>
+    match parseCall toks with
+    | none => (wbuf, "bad-op")
+    | some (.continuation sid eh frag) =>
+      -- the preparatory HEADERS goes through the same writing Framer
+      let p := runCall wbuf (.headers sid [] false false 0 {})
+      let r := runCall p.2 (.continuation sid eh frag)
+      (r.2, c06Finish r.1 (match p.1 with | .ok pre => pre | .error _ => []))
+    | some c =>
+      let r := runCall wbuf c
+      (r.2, c06Finish r.1 [])
 
-def main : IO Unit := runLoop c06Step ()
+def main : IO Unit := runLoop c06Step []
